@@ -49,14 +49,17 @@ def evaluate(case) -> Result:
     idle_T = t.get("p_idle") or t["idle"]
     dwa_T = t.get("p_dwa") or t["dwa"]
     wake = t["wakeup"]
+    H = case.get("spell") or "peer1.example"       # the peer's own spelling of its identity
     try:
         w.start()
         pm = w.mods["peer"]
+        if case.get("spell"):
+            res.classes.append("identity:respelled")
         if case["dir"] == "out":
             c = w.conns[0]
-            w.answer_cer(c, 2001, auth=(4,), host="peer1.example")
+            w.answer_cer(c, 2001, auth=(4,), host="peer1.example", spelled=H)
         else:
-            c = w.handshake_in("peer1.example", auth=[4])
+            c = w.handshake_in("peer1.example", auth=[4], spelled=H)
         nc = w.node_conn_for(c)
         if nc is None or nc.state != pm.PEER_READY:
             res.v("C11/setup", "connection did not become ready")
@@ -95,13 +98,13 @@ def evaluate(case) -> Result:
             elif kind == "TRAFFIC":
                 hbh += 1
                 flush_partial()
-                w.feed_msg(c, {"k": "REQ", "host": "peer1.example", "hbh": hbh, "e2e": hbh})
+                w.feed_msg(c, {"k": "REQ", "host": H, "hbh": hbh, "e2e": hbh})
                 fed = "REQ"
             elif kind == "FRAG":
                 # the next few bytes of a request that trickles in: bytes arrive, no message completes
                 if not partial[0]:
                     hbh += 1
-                    partial[0] = W.build_msg({"k": "REQ", "host": "peer1.example", "hbh": hbh, "e2e": hbh})
+                    partial[0] = W.build_msg({"k": "REQ", "host": H, "hbh": hbh, "e2e": hbh})
                 piece, partial[0] = partial[0][:ev[1]], partial[0][ev[1]:]
                 w.feed(c, piece)
                 fed = "FRAG"
@@ -128,7 +131,7 @@ def evaluate(case) -> Result:
             elif kind == "DWR":
                 hbh += 1
                 flush_partial()
-                w.feed_msg(c, {"k": "DWR", "host": "peer1.example", "hbh": hbh, "e2e": hbh})
+                w.feed_msg(c, {"k": "DWR", "host": H, "hbh": hbh, "e2e": hbh})
                 fed = "DWR"
             elif kind == "DWA":
                 hbh += 1
@@ -136,7 +139,7 @@ def evaluate(case) -> Result:
                 dwrs = [f for f in c.refresh() if f.code == W.CMD_DW and f.is_request]
                 ids = {"hbh": dwrs[-1].h["hbh"], "e2e": dwrs[-1].h["e2e"]} if dwrs else {"hbh": hbh, "e2e": hbh}
                 flush_partial()
-                w.feed_msg(c, dict(ids, k="DWA", host="peer1.example"))
+                w.feed_msg(c, dict(ids, k="DWA", host=H))
                 fed = "DWA"
             new = c.refresh()[n_out:]
             n_out = len(c.out)
@@ -233,6 +236,7 @@ def shard_main(shard, nshards, tier, scale):
                        st.tuples(st.just("BLOCK_TX")), st.tuples(st.just("UNBLOCK_TX")),
                        st.tuples(st.just("FRAG"), st.integers(1, 24)), st.tuples(st.just("FRAG"), st.integers(1, 24)))
         return {"dir": draw(st.sampled_from(["in", "out"])), "timers": timers, "seed": draw(st.integers(0, 3)),
+                "spell": draw(st.sampled_from([None, None, "Peer1.EXAMPLE"])),
                 "events": [list(e) for e in draw(st.lists(ev, min_size=1, max_size=40))]}
 
     def body(case):
@@ -271,7 +275,7 @@ def run(tier, scale=1.0):
     rec = Recorder(PID)
     for d in hyp.pool_run(shard_main, (tier, scale)):
         rec.merge(d)
-    required = {"fragment": 1, "tx-blocked": 1, "dir:in": 1, "dir:out": 1, "episodes:2": 1, "closed-by-watchdog": 1, "peer-idle:True": 1,
+    required = {"identity:respelled": 1, "fragment": 1, "tx-blocked": 1, "dir:in": 1, "dir:out": 1, "episodes:2": 1, "closed-by-watchdog": 1, "peer-idle:True": 1,
                 "peer-dwa:True": 1, "outcomes:2": 1}
     return finish(rec, tier=tier, level="exploration", rule=RULE, assumptions=ASSUME, t0=t0,
                   required_classes=required)
